@@ -86,6 +86,7 @@ type Ctx struct {
 	usedAxioms  map[string]bool
 	warned      map[string]bool
 	needStrSub  bool
+	constGlobals map[string]bool
 	allGhosts   map[string]bool
 	usesBSeq    bool
 	defs        map[string]string
@@ -102,7 +103,7 @@ func newCtx(P *Program, SS *SpecSet, fn *ssa.Function, spec *FuncSpec, key strin
 	return &Ctx{P: P, SS: SS, Fn: fn, Spec: spec, Key: key,
 		sortSeen: map[string]bool{}, declSeen: map[string]bool{}, oblCount: map[string]int{},
 		Assumptions: map[string]bool{}, Unmodelled: map[string]bool{}, tags: map[string]int{}, strlits: map[string]string{},
-		structNames: map[string]string{}, maxPaths: 4000, usedAxioms: map[string]bool{}, warned: map[string]bool{}, rangeCells: map[*ssa.Range]*Cell{}, compSorts: map[string]string{}, defs: map[string]string{}}
+		structNames: map[string]string{}, maxPaths: 4000, usedAxioms: map[string]bool{}, warned: map[string]bool{}, rangeCells: map[*ssa.Range]*Cell{}, compSorts: map[string]string{}, defs: map[string]string{}, constGlobals: map[string]bool{}}
 }
 
 func (c *Ctx) fresh(prefix string) string {
